@@ -43,6 +43,11 @@ CHECKS = {
          "For the 20 group instances plus a cofactor-84 residue group built through the public SetParams: every input of the alphabet is decoded; a panic is a violation; an accepted value must satisfy the independent membership predicate of the set the group promises (curve equations over Fp / Fp2, x^q=1, (q-1)P+P=O for BLS12-381), survive a follow-up program (encode, Add, Sub, Mul, Neg, Equal, String, Clone, Data) and round-trip. Scalars: range-checking decoders must reject q, q+1, 2q-1, ...; later arithmetic must not panic. 40 composite entry points (Schnorr x6, EdDSA x3, BLS x8, CoSi, proof.HashVerify x3, ECIES x2, anon Decrypt/Verify x6, VSS Deal.Unmarshal x2): every truncation, bit flips, constant blocks, byte overwrites of an honest message -> never a panic.",
          "Trusted: curve parameters transcribed into /verif (self-tested on the base points), math/big. BLS subgroup membership is decided through the API.",
          "DESIGN.md §4 C04"),
+ "C08": ("model_checking",
+         "exhaustive enumeration of keys x message lengths x single-bit / structured mutations on the real sign/verify code, semantic-difference oracle from the group decoders, differential oracle against crypto/ed25519",
+         "Schnorr over the 17 group instances with an implicit generator (keys {1,q-1,r1,r2} x 8 message lengths incl. 0 and 4096): honest verifies; every single-bit flip of signature and key (all bits for one key/two lengths, one bit per byte elsewhere) and of messages <= 65 bytes, +-1 byte, other key -> rejected unless the encoding decodes to the same (R,S,key). Ed25519: S+k*l for every k below 2^256; all 14x14 pairs of small-order / non-canonical encodings as (A,R) with S in {0,1} x 24 messages, and spliced into a valid signature. EdDSA vs crypto/ed25519 on 64 seeds x 12 lengths: identical key and signature bytes, deterministic, key reload on a used object, kyber accepts => stdlib accepts. Ring signatures on Ed25519, P-256, bn256.G1: ring sizes 1..5 x every signer x scopes {nil, empty, a, b} x 2 messages, tag relations, every component replaced / bit-flipped / truncated, other message / ring member / scope.",
+         "Trusted: crypto/ed25519 as RFC 8032 reference; chance acceptance of a mutated signature (2^-250) ignored.",
+         "DESIGN.md §4 C08"),
 }
 
 NOT_YET = "check not built yet in this round (planned: see DESIGN.md §4)"
